@@ -1313,6 +1313,14 @@ def vc_struct_small():
                         ob(f"field{k}_extent_inside_object", z3.And(ext[k][0] >= 0, ext[k][0] + ext[k][1] <= total))
                         wb, wsz, woff = r[5], r[3], r[2]
                         ob(f"field{k}_bytes_survive_later_writes", forall_x(lambda x: z3.Implies(z3.And(0 <= x, x < wsz), b.mem[woff + x] == wb[x])))
+                    # header words survive the field writes: size word and one offset word per later dynamic field (C05), which is what a
+                    # view rebuilt from (buffer, offset) reads back (C06: constructor handle == view)
+                    for (old, new, at) in getattr(st, "word_writes", []):
+                        XB.same_word(st, new, b.mem, at)
+                    if dyn:
+                        ob("size_word_after_all_writes", XB.W8(b.mem, o) == total)
+                        for k in dyn[1:]:
+                            ob(f"offset_word{k}_after_all_writes", XB.W8(b.mem, o + F[k].attrs["offset"]) == ext[k][0])
                     for a in range(n):
                         for c in range(a + 1, n):
                             ob(f"fields{a}{c}_disjoint", z3.Or(ext[a][0] + ext[a][1] <= ext[c][0], ext[c][0] + ext[c][1] <= ext[a][0]))
